@@ -1305,7 +1305,7 @@ pub fn mbench_strategy(f: MFocus) -> BoxedStrategy<Bench> {
                 .prop_map(move |(raw, sources, orphans)| {
                     let n = raw.len();
                     let norph = orphans.len();
-                    let models = raw
+                    let mut models: Vec<ModelSpec> = raw
                         .iter()
                         .enumerate()
                         .map(|(i, r)| ModelSpec {
@@ -1335,6 +1335,49 @@ pub fn mbench_strategy(f: MFocus) -> BoxedStrategy<Bench> {
                             nslots: 0,
                         })
                         .collect();
+                    // names that begin with the qualified name of the parent (a child "pump_valve" of
+                    // "pump", or a child named exactly like its parent): the qualified name is still
+                    // parent.child
+                    let q = qualified_names(&Bench {
+                        models: models.clone(),
+                        sinks: vec![],
+                        orphans: vec![],
+                        sources: vec![],
+                        qsources: vec![],
+                        vclock: false,
+                        tokens: false,
+                    });
+                    for i in 0..n {
+                        if let (Some(p), false) = (models[i].parent, raw[i].anon) {
+                            match raw[i].cap % 5 {
+                                0 => models[i].name = format!("{}_{}", q[p as usize], i),
+                                1 if raw[i].cap % 2 == 1 => models[i].name = q[p as usize].clone(),
+                                _ => {}
+                            }
+                        }
+                    }
+                    // hierarchies also get pure source sub-models: no inputs, nobody keeps their
+                    // address (name ending in '$', see core::build); their init sends to the sink
+                    if f == MFocus::Hier {
+                        let extra = raw.iter().filter(|r| r.anon || r.cap % 3 == 0).count().min(2);
+                        for k in 0..extra {
+                            let parent = (raw[k].cap + k) % n;
+                            models.push(ModelSpec {
+                                name: format!("src{}$", k),
+                                cap: 1,
+                                parent: Some(parent as u16),
+                                outs: vec![vec![Conn {
+                                    target: Target::Sink(0),
+                                    kind: ConnKind::Plain,
+                                    tag: 0,
+                                }]],
+                                reqs: vec![],
+                                scripts: raw[0].scripts.iter().map(|_| Vec::new()).collect(),
+                                init: vec![Op::Send { out: 0, script: 0 }],
+                                nslots: 0,
+                            });
+                        }
+                    }
                     Bench {
                         models,
                         sinks: vec![SinkSpec::Buffer { cap: 1_000_000 }, SinkSpec::Slot],
@@ -1454,7 +1497,7 @@ fn mcmd_strategy(f: MFocus, n: u16, nsrc: u16, nscripts: u16) -> BoxedStrategy<C
 pub fn mcase_strategy(f: MFocus, exec: BoxedStrategy<Exec>) -> BoxedStrategy<SCase> {
     (mbench_strategy(f), exec, 0i64..20)
         .prop_flat_map(move |(bench, exec, start)| {
-            let n = bench.models.len() as u16;
+            let n = targetable_models(&bench) as u16;
             let ns = bench.sources.len() as u16;
             let nscripts = bench.models[0].scripts.len() as u16;
             proptest::collection::vec(mcmd_strategy(f, n, ns, nscripts), 1..10).prop_map(move |cmds| SCase {
